@@ -110,7 +110,7 @@ impl TaikoGradualPerformance {
     pub fn nth(&mut self, state: TaikoScoreState, n: usize) -> Option<TaikoPerformanceAttributes> {
         let performance = self
             .difficulty
-            .nth(n)?
+            .nth_clamped(n)?
             .performance()
             .state(state)
             .difficulty(self.difficulty.difficulty.clone())
